@@ -543,7 +543,9 @@ func c19GrammarCase(s Src) *Case {
 	return cs
 }
 
-func c19Random(s Src, tier string) *Case {
+func c19Random(s Src, tier string) *Case { return applySched(s, c19Random1(s, tier), false) }
+
+func c19Random1(s Src, tier string) *Case {
 	if Chance(s, "grammar", 1, 5) {
 		return c19GrammarCase(s)
 	}
